@@ -11,7 +11,7 @@ for p in sorted(glob.glob(os.path.join(V, "seeded", "*", "meta.json"))):
     first = "caught"
     if re.search(r"\bMISSED\b", det):
         first = "missed"
-    if det.startswith("first run: HARNESS-ERROR"):
+    if det.startswith("first run: HARNESS-ERROR") or det.startswith("first run: the check did not terminate"):
         first = "harness error"
     stats[first] += 1
     now = "caught"
